@@ -42,7 +42,8 @@ def _tcp_job(args):
         # like the TCP one (no numbering, no checksums, no resets), paced by the acknowledgements
         return serial_rec.run_job(lines, corrupt=(), holds={int(k): v for k, v in holds.items()}, pauses=pauses, next_jobs=nxt,
                                   mode="serial", greeting=b"Grbl 1.1h ['$' for help]\n")
-    return serial_rec.run_job(lines, corrupt=(), holds={int(k): v for k, v in holds.items()}, pauses=pauses, next_jobs=nxt, mode="socket")
+    return serial_rec.run_job(lines, corrupt=(), holds={int(k): v for k, v in holds.items()}, pauses=pauses, next_jobs=nxt, mode="socket",
+                              streaming=(kind == "stream"))
 
 
 def run_jobs(specs, par=12):
@@ -265,12 +266,13 @@ class P(flow.Plan):
             holds = {j: rng.randint(0, k + 3) for j in range(2 * k + 6) if rng.random() < 0.25}
             pauses = sorted(rng.sample(range(1, k + 2), 1)) if i % 4 == 0 and k >= 2 else []
             nxt = [job_lines(rng, rng.randint(1, 4))] if i % 5 == 2 and not pauses else []
-            specs.append((lines, holds, pauses, nxt, "grbl" if i % 3 == 1 else "socket"))
+            specs.append((lines, holds, pauses, nxt, "grbl" if i % 3 == 1 else ("stream" if i % 6 == 3 and not pauses else "socket")))
         trs = flow.pool_map(_tcp_job, specs, 8, per_task=40)
 
         def judge(ts, tag):
             path = os.path.join(workdir(), "%s.json" % tag)
-            write_json(path, [{"job": t["job"], "ev": [{"k": e["k"], "text": e["text"], "joined": e["joined"], "job": e["job"]} for e in t["ev"]]} for t in ts])
+            write_json(path, [{"job": t["job"], "paced": not t["meta"].get("streaming", False),
+                               "ev": [{"k": e["k"], "text": e["text"], "joined": e["joined"], "job": e["job"]} for e in t["ev"]]} for t in ts])
             r = tlc.validate("SenderTcpTrace", "SPECIFICATION Spec\n", path, tag=tag)
             if r.errors or r.rc != 0:
                 raise flow.MachineryError("SenderTcpTrace failed: %s\n%s" % (r.errors[:2], r.stdout[-1500:]))
@@ -293,7 +295,7 @@ class P(flow.Plan):
                 if e["k"] == "tx" and not bytes(e["text"]).startswith(b"M110"):
                     out.append(i)
             return out
-        base = next((t for t in trs if not t["meta"]["pauses"] and len(job_txs(t)) >= 3
+        base = next((t for t in trs if not t["meta"]["pauses"] and not t["meta"].get("streaming") and len(job_txs(t)) >= 3
                      and t["ev"][job_txs(t)[0]]["text"] != t["ev"][job_txs(t)[1]]["text"]), None)
         ctl = 0
         if base is not None:
